@@ -122,6 +122,29 @@ def gen(rng, tier, n):
                 leaf = leaf.get(seg) if isinstance(leaf, Obj) else leaf[int(seg)]
             if isinstance(leaf, Obj):
                 leaf.set("$id", render(sb))
+        emb = (not bad) and rng.random() < 0.3
+        if emb:
+            # an embedded resource: '#' + pointer inside it is relative to ITS root (the empty pointer '#' is the resource itself,
+            # not the document); the same pointers are also written against the resource's absolute URI from outside
+            locs2 = []
+            sk2 = skeleton(rng, draft, rng.choice([1, 2]), marks, [defs_kw, "T"], locs2)
+            eprops = Obj([("self", Obj([("$ref", "#")]))])
+            for i, (segs, m) in enumerate(rng.sample(locs2, min(len(locs2), 2))):
+                eprops.kvs.append(("q%d" % i, Obj([("$ref", render(segs, rng))])))
+                props.kvs.append(("x%d" % i, Obj([("$ref", "http://x.test/emb/e.json" + render(segs, rng))])))
+                for mm in set([m] + rng.sample(marks, min(2, len(marks)))):
+                    insts += [Obj([("e", Obj([("q%d" % i, mm)]))]), Obj([("e", Obj([("self", Obj([("q%d" % i, mm)]))]))]), Obj([("x%d" % i, mm)]),
+                              Obj([("selfroot", Obj([("e", Obj([("q%d" % i, mm)]))]))])]
+                    expect += [mm == m] * 4
+            for i, (segs, m) in enumerate(chosen[:2]):
+                # a property name of the ROOT below the embedded resource's '#': unconstrained there
+                insts += [Obj([("e", Obj([("self", Obj([("r%d" % i, "nomark")]))]))]), Obj([("selfroot", Obj([("r%d" % i, "nomark")]))])]
+                expect += [True, False]
+            E = Obj([("$id", "emb/e.json"), (defs_kw, Obj([("T", sk2)])), ("properties", eprops)])
+            root.get(defs_kw).set("E", E)
+            root.set("$id", "http://x.test/root.json")
+            props.kvs.append(("e", Obj([("$ref", "emb/e.json")])))
+            props.kvs.append(("selfroot", Obj([("$ref", "#")])))
         if bad:
             if isinstance(sk, Obj) and sk.get("allOf") is None and sk.get("const") is None:
                 sk.set("allOf", [Obj([("const", "zz")])])
